@@ -41,6 +41,9 @@ type CLI struct {
 	AlwaysEOL bool // EOL res EOL prompt even for empty res (the shape Channel.tla models)
 	LastMode  string
 	OnReturn  func(c *CLI) // called under the mutex after every processed return
+	// AfterBare: printed behind the prompt that answers a bare return in command state, followed by the prompt again (an
+	// asynchronous log message that makes the device redraw its prompt)
+	AfterBare string
 }
 
 // Start implements Reactor.
@@ -120,6 +123,11 @@ func (c *CLI) OnInput(b []byte) []byte {
 			c.NoPrompt = false
 		default:
 			out.WriteString(c.Prompts[c.Mode])
+
+			if line == "" && c.AfterBare != "" {
+				// twice: the first redrawn prompt then stands on a line of its own (the input typed next shares the line of the last one)
+				out.WriteString(c.EOL + c.AfterBare + c.EOL + c.Prompts[c.Mode] + c.EOL + c.AfterBare + c.EOL + c.Prompts[c.Mode])
+			}
 		}
 
 		if c.OnReturn != nil {
